@@ -198,11 +198,11 @@ func (p *CPU) execInst(bus *device.Bus, as abi.As, arg *abi.AsRawArgument) error
 	case riscv.AANDI:
 		p.RegX[arg.Rd] = p.RegX[arg.Rs1] & RVUInt(arg.Imm)
 	case riscv.ASLLI:
-		p.RegX[arg.Rd] = p.RegX[arg.Rs1] << arg.Imm
+		p.RegX[arg.Rd] = p.RegX[arg.Rs1] << (uint32(arg.Imm) & (XLen - 1))
 	case riscv.ASRLI:
-		p.RegX[arg.Rd] = p.RegX[arg.Rs1] >> arg.Imm
+		p.RegX[arg.Rd] = p.RegX[arg.Rs1] >> (uint32(arg.Imm) & (XLen - 1))
 	case riscv.ASRAI:
-		p.RegX[arg.Rd] = RVUInt(int64(p.RegX[arg.Rs1]) >> arg.Imm)
+		p.RegX[arg.Rd] = RVUInt(RVInt(p.RegX[arg.Rs1]) >> (uint32(arg.Imm) & (XLen - 1)))
 	case riscv.AADD:
 		p.RegX[arg.Rd] = p.RegX[arg.Rs1] + p.RegX[arg.Rs2]
 	case riscv.ASUB:
@@ -265,11 +265,11 @@ func (p *CPU) execInst(bus *device.Bus, as abi.As, arg *abi.AsRawArgument) error
 	case riscv.AADDIW:
 		p.RegX[arg.Rd] = RVUInt(int32(p.RegX[arg.Rs1] + RVUInt(arg.Imm)))
 	case riscv.ASLLIW:
-		p.RegX[arg.Rd] = RVUInt(int32(p.RegX[arg.Rs1] << arg.Imm))
+		p.RegX[arg.Rd] = RVUInt(int32(uint32(p.RegX[arg.Rs1]) << (uint32(arg.Imm) & 31)))
 	case riscv.ASRLIW:
-		p.RegX[arg.Rd] = RVUInt(int32(uint32(p.RegX[arg.Rs1]) >> arg.Imm))
+		p.RegX[arg.Rd] = RVUInt(int32(uint32(p.RegX[arg.Rs1]) >> (uint32(arg.Imm) & 31)))
 	case riscv.ASRAIW:
-		p.RegX[arg.Rd] = RVUInt(int32(p.RegX[arg.Rs1]) >> arg.Imm)
+		p.RegX[arg.Rd] = RVUInt(int32(p.RegX[arg.Rs1]) >> (uint32(arg.Imm) & 31))
 
 	case riscv.AADDW:
 		p.RegX[arg.Rd] = RVUInt(int32(p.RegX[arg.Rs1]) + int32(p.RegX[arg.Rs2]))
